@@ -581,8 +581,8 @@ pub fn c02_cases(tier: Tier) -> Vec<Case> {
     // (e) every written sanitizer, at its written position: all string sanitizer lists with two or more steps
     // (every order of trim / lowercase|uppercase / a custom step), probed on all strings up to length 3 over an
     // alphabet in which each step has something to do and the steps do not commute (' ', 'x' for strip_x, 'A',
-    // 'ß', ZERO WIDTH SPACE: not whitespace, so "\u{200b} x" tells `trim` before from `trim` after strip_x)
-    let alpha = [' ', 'x', 'A', 'ß', '\u{200b}'];
+    // 'ß', NO-BREAK SPACE: whitespace outside ASCII, ZERO WIDTH SPACE: not whitespace, so "\u{200b} x" tells `trim` before from `trim` after strip_x)
+    let alpha = [' ', 'x', 'A', 'ß', '\u{200b}', '\u{a0}'];
     let mut probes_in: Vec<Val> = vec![Val::s("")];
     let mut layer: Vec<String> = vec![String::new()];
     for _ in 0..3 {
